@@ -25,6 +25,16 @@ Theorem C20_transparent : forall st cn hs s ws,
 Proof. exact transparent. Qed.
 Print Assumptions C20_transparent.
 
+(* the response headers in full, with no restriction on what the handler sets (it may send Set-Cookie lines of its own):
+   every header line of the handler, in order, preceded by exactly one affinity cookie per sticky balancer of the stack *)
+Theorem C20_headers_in_full : forall st cn hs s ws,
+  flush_ok cn = true -> Forall passive st ->
+  let h := nf_handler hs s ws in
+  v_hdrs (client_view (fst (serve st cn h))) = cookies st ++ v_hdrs (client_view (run_handler cn h)) /\
+  n_cookies (cookies st) = Z.of_nat (length (filter (fun l => match lkind l with KRR | KReb => sticky l | _ => false end) st)).
+Proof. exact transparent_hdrs. Qed.
+Print Assumptions C20_headers_in_full.
+
 (* connection hijacking stays available to the handler through every passive stack *)
 Theorem C20_hijack_available : forall st, Forall passive st ->
   snd (serve st full [HHijack]) = 1 /\ v_hijacked (client_view (fst (serve st full [HHijack]))) = true.
@@ -66,5 +76,7 @@ Example C20_example :
           [3; 1;0;0; 7;0;0; 3;1;0; 0; 2;2;104;105]]
   = [[0; 200; 1; 3; hash_bytes [104;105;33]; 1; 136; 1; 0]; [0; 429; 0; 1; hash_bytes [2]; 0; 0; 0; 0]] /\
   (* a handler behind trace(cbreaker(handler)), the tracer writing to a failing sink and no buffer: its flush reaches the connection *)
-  run [] [[2; 1;0;1; 4;0;0; 0; 1;200; 3; 2;2;104;105]] = [[0; 200; 1; 2; hash_bytes [104;105]; 0; 0; 0; 1]].
-Proof. split; [repeat constructor|split; vm_compute; reflexivity]. Qed.
+  run [] [[2; 1;0;1; 4;0;0; 0; 1;200; 3; 2;2;104;105]] = [[0; 200; 1; 2; hash_bytes [104;105]; 0; 0; 0; 1]] /\
+  (* roundrobin+sticky(buffer(handler)) around a handler that sends a Set-Cookie of its own: both cookies arrive *)
+  run [] [[2; 5;0;1; 7;0;0; 0; 6;3; 2;1;33]] = [[0; 200; 1; 1; hash_bytes [33]; 0; 0; 2; 0]].
+Proof. split; [repeat constructor|split; [|split]; vm_compute; reflexivity]. Qed.
